@@ -31,6 +31,8 @@ CUSTOM_IMPLS = {
     'XFEED': 'input(A) output(Y) Y=BUF1(A)',
     'XCONST': 'output(Y) Y=__const1__()',
     'XDFFSEQ': 'input(D,E) output(Q,QN) DE=AND2(D,E) Q=DFF(DE) QN=INV1(Q)',
+    'XIGN2': 'input(A,B,C) output(Y) X=INV1(C) Y=AND2(X,A)',
+    'XIGN3': 'input(A,B,C,D) output(Y,Z) X=NOR2(D,A) Y=OA21(X,C,A) Z=BUF1(X)',
     'XDEEP': 'input(A,B,C) output(Y,Z) T=NOR2(A,B) U=MUX21(T,C,A) Y=AO21(T,U,B) Z=BUF1(U)',
 }
 
